@@ -128,16 +128,12 @@ Definition check_case (c : case) : bool :=
       let body := repeat 0 (N.to_nat body_len) in
       list_eqb N.eqb (append_wire_opt body f) (body ++ appended)
   | CaseWireOPT raw off adm e n k =>
-      (* the translated parseWireOPT decides admission; the translated loop yields the facts *)
-      match wire_opt_admitted raw off with
-      | Some a =>
+      (* the translated parseWireOPT: admission, and the facts on the Request it hands back *)
+      match wire_opt_parse raw off with
+      | Some (a, r) =>
           Bool.eqb a adm &&
-          (if adm then
-             match wire_opt_walk raw off with
-             | (GoNext, r) => Bool.eqb (T_Request_hasECS r) e && Bool.eqb (T_Request_hasNSID r) n &&
-                              Bool.eqb (T_Request_hasKeepalive r) k
-             | _ => false
-             end
+          (if adm then Bool.eqb (T_Request_hasECS r) e && Bool.eqb (T_Request_hasNSID r) n &&
+                       Bool.eqb (T_Request_hasKeepalive r) k
            else true)
       | None => false
       end
